@@ -21,7 +21,10 @@ mod conn;
 mod sse;
 mod extract;
 mod auth;
-mod codec;
+mod urlenc;
+mod cookie;
+mod multipart;
+mod decoders;
 mod fmt;
 mod cors;
 mod dirmount;
@@ -40,7 +43,10 @@ fn subcommand(name: &str) -> Option<RunFn> {
         "sse" => sse::run,
         "extract" => extract::run,
         "auth" => auth::run,
-        "codec" => codec::run,
+        "urlenc" => urlenc::run,
+        "cookie" => cookie::run,
+        "multipart" => multipart::run,
+        "decoders" => decoders::run,
         "fmt" => fmt::run,
         "cors" => cors::run,
         "dir" => dirmount::run,
@@ -178,7 +184,13 @@ fn main() {
                 "sse" => sse::gen,
                 "extract" => extract::gen,
                 "auth" => auth::gen,
-                "codec" => codec::gen,
+                "urlenc" => urlenc::gen,
+                "cookie" => cookie::gen,
+                "multipart" => multipart::gen,
+                "decoders" => decoders::gen,
+                "openapi" => openapi::gen,
+                "schema" => schema::gen,
+                "sd" => sd::gen,
                 "fmt" => fmt::gen,
                 "cors" => cors::gen,
                 "dir" => dirmount::gen,
